@@ -537,7 +537,8 @@ DefectClasses == {"unknown_module", "bad_weight", "bad_area", "soft_no_area", "h
 (*         "centre carriers" in general position, nets of arity 2..4       *)
 (***************************************************************************)
 Thorough == UNIVERSE = "thorough"
-ModNames == <<"A", "b_2", "_c", "D4">>
+\* listing order is deliberately NOT the sorted order of the names (a writer that sorts its mapping keys must show)
+ModNames == <<"b_2", "A", "_c", "D4">>
 C2(x, yy) == <<x, 1, yy, 1>>                          \* a centre on the lattice
 
 \* rectangle pool (w, h >= 2 for the trunks so that the shifted overlap exists)
